@@ -1,6 +1,7 @@
 package decoders
 
 import (
+	"bytes"
 	"context"
 	"errors"
 	"fmt"
@@ -17,6 +18,20 @@ import (
 func filePosition(file io.ReadSeeker) (position int64) {
 	position, _ = file.Seek(0, io.SeekCurrent)
 	return
+}
+
+// readSized reads size bytes from r. Size comes from ammo file and can't be trusted:
+// negative size is rejected, and memory is allocated only for data that is really there.
+func readSized(r io.Reader, size int) ([]byte, error) {
+	if size < 0 {
+		return nil, fmt.Errorf("negative size %d", size)
+	}
+	var buf bytes.Buffer
+	_, err := io.CopyN(&buf, r, int64(size))
+	if err == io.EOF {
+		err = io.ErrUnexpectedEOF
+	}
+	return buf.Bytes(), err
 }
 
 var (
